@@ -3,7 +3,8 @@ from __future__ import annotations
 
 import ast
 
-from ..astutil import calls, dotted, is_const, norm, walk_body, walk_local
+from ..astutil import calls, dotted, is_const, norm, strip_docstring, walk_body, walk_local
+from ..dtree import decision_tree
 from ..callgraph import CallGraph
 from ..flow import Interp, Semantics, enumerate_paths
 from ..report import Checker
@@ -489,6 +490,48 @@ def r_default_tag(ck: Checker) -> None:
     ck.require_count("R-DEFAULT-TAG", 9)
 
 
+def r_dialect_passed(ck: Checker) -> None:
+    """mashumaro does not hand a dialect down to nested SerializableType values by itself: every nested object gets it from the class-level
+    slot inside _serialize / _deserialize.  So every path of those two hooks that converts (to_dict / from_dict) either passes
+    `dialect=<the slot>` or has established that the slot is None (path-based; positive pattern: a conversion without `dialect=` on a path
+    on which the slot was never compared with None, or is known to be set)."""
+    c = ck.repo.cls(SER, MIXIN)
+    for name, conv in (("_serialize", "to_dict"), ("_deserialize", "from_dict")):
+        f = ck.repo.func(SER, f"{MIXIN}.{name}")
+        leaves = decision_tree(strip_docstring(f.node.body), max_atoms=8)
+        n = 0
+        bad = None
+        for lf in leaves:
+            stmts, val = lf.resolved()
+            calls = [x for st in list(stmts) + ([ast.Expr(value=val)] if val is not None else []) for x in ast.walk(st)
+                     if isinstance(x, ast.Call) and isinstance(x.func, ast.Attribute) and x.func.attr == conv]
+            if not calls:
+                continue
+            slot_atoms = {k: v for k, v in lf.assign.items() if "mashumaro_dialect" in k and k.startswith("is(") and "None" in k}
+            known_none = any(v is True for v in slot_atoms.values())
+            for cl in calls:
+                n += 1
+                kw = next((k for k in cl.keywords if k.arg == "dialect"), None)
+                if kw is not None and "mashumaro_dialect" in norm(kw.value):
+                    continue
+                if kw is None and known_none:
+                    continue
+                star = [k for k in cl.keywords if k.arg is None]
+                if star:
+                    if any("mashumaro_dialect" in norm(k.value) for k in star):
+                        continue
+                    raise Unsupported(f"{MIXIN}.{name}: {norm(cl)[:60]} passes its options through a mapping that was not resolved", cl)
+                bad = (cl, "the slot is set on this path" if slot_atoms else "the slot was not looked at on this path")
+        what = f"{MIXIN}.{name}: every conversion passes the dialect of the call in progress unless none is set"
+        if bad:
+            ck.violation("R-OPT-OWN", f, bad[0], what, positive=True, evaluations=len(leaves),
+                         construct=f"{MIXIN}.{name}: {norm(bad[0])[:60]} converts without `dialect=` although {bad[1]} — nested objects on this path are (de)serialized with the default strategies")
+        elif n == 0:
+            raise Unsupported(f"{MIXIN}.{name}: no {conv}(...) call found on any path", f.node)
+        else:
+            ck.holds("R-OPT-OWN", f, f.node, what, evaluations=len(leaves))
+
+
 def run(ck: Checker) -> None:
     ck.explanation = (
         "Static dataflow over serialize.py/node.py/origin.py: set/reset pairing of the two process-global option "
@@ -509,6 +552,7 @@ def run(ck: Checker) -> None:
     ck.guard("R-OPT-PAIR", lambda: r_opt_pair(ck, slots))
     ck.guard("R-OPT-OWN", lambda: r_opt_own(ck, slots))
     ck.guard("R-OPT-REENTRY", lambda: r_opt_reentry(ck))
+    ck.guard("R-OPT-OWN", lambda: r_dialect_passed(ck))
     ck.guard("R-TAG-FIRST", lambda: r_tag_first(ck))
     ck.guard("R-SORTED-OVERRIDE", lambda: r_overrides(ck))
     ck.guard("R-DEFAULT-TAG", lambda: r_default_tag(ck))
